@@ -31,6 +31,8 @@ def run(chk, program, tier):
     rules_iso.state_deps(_Sub(chk, {'STATE-DEPS'}), program)
     rules_iso.no_decorators(_Sub(chk, {'FRESH-MSG'}), program)
     R.disp_reach(chk, program)
+    from .. import rules_filter as F_
+    F_.no_match_not_decoded(chk, program)
     E.enc_name(chk, program)
     E.enc_state(chk, program)
     R.gen_dec(chk, program, slots=[], rule='GEN-DEC', with_msg=True, with_flow=False)
